@@ -59,6 +59,8 @@ def canon_metrics():
             v = sorted(v.keys()) if isinstance(v, dict) else v
         elif k == "traces":
             v = {r: sorted(d.keys()) for r, d in v.items()} if isinstance(v, dict) else v
+        elif k == "prefix" and isinstance(v, str):
+            v = os.path.basename(v)        # the scratch directory differs per worker process
         out.append((k, core.jsonable(v)))
     return tuple((k, repr(v)) for k, v in out)
 
@@ -438,6 +440,43 @@ def _s_regonly(prefix):
     return ("", [])
 
 
+def _s_interrupted(prefix):
+    """A session that is never ended (an exception escaped the kernel): whatever
+    it registered must not leak into the next session."""
+    At = Tensor.fromUncompressed(["M", "K"], A_, shape=[3, 4])
+    Bt = Tensor.fromUncompressed(["K", "N"], B_, shape=[4, 2])
+    Z = Tensor(rank_ids=["M", "N"], shape=[3, 2])
+    Metrics.beginCollect(prefix)
+    Metrics.trace("N", type_="populate_write_0")
+    Metrics.trace("K", type_="intersect_0")
+    Metrics.trace("M", type_="iter", consumable=True)
+    n = 0
+    for m, (z_n, a_k) in Z.getRoot() << At.getRoot():
+        for k, (a, b_n) in a_k & Bt.getRoot():
+            for nn, (z, b) in z_n << b_n:
+                z += a * b
+                n += 1
+            if n >= 2:
+                return ("interrupted", [])       # no endCollect
+    return ("interrupted", [])
+
+
+def _s_unconsumed(prefix):
+    """endCollect() with an unconsumed consumable trace raises (documented
+    assertion): the session stays half-open."""
+    f = Fiber([0, 2], [1, 1])
+    f.getRankAttrs().setId("K")
+    Metrics.beginCollect(prefix)
+    Metrics.trace("K", type_="iter", consumable=True)
+    for _ in f:
+        pass
+    try:
+        Metrics.endCollect()
+    except AssertionError:
+        pass
+    return ("unconsumed", [])
+
+
 ALL_MV = [("M", "iter"), ("K", "iter"), ("K", "intersect_0"), ("K", "intersect_1"), ("M", "populate_1"),
           ("M", "populate_write_0")]
 SESSIONS = [
@@ -451,7 +490,10 @@ SESSIONS = [
     ("matmul-thr3", lambda p: _s_matmul(p, [("M", "iter"), ("K", "iter"), ("N", "iter")], thr=3)),
     ("project", _s_project),
     ("register-only", _s_regonly),
+    ("interrupted-never-ended", _s_interrupted),
+    ("unconsumed-consumable", _s_unconsumed),
 ]
+DIRTY = ("interrupted-never-ended", "unconsumed-consumable")     # sessions that leave collection open by design
 
 
 def _run_session(i):
@@ -468,7 +510,11 @@ def _run_session(i):
             except Exception:
                 Metrics.collecting = False
     dump = copy.deepcopy(Metrics.dump())
-    return (dump, _files(prefix), out, err)
+    files = _files(prefix)
+    if SESSIONS[i][0] in DIRTY:
+        # what a half-open session reports is not compared: only what it does to later sessions
+        return (None, None, SESSIONS[i][0], None)
+    return (dump, files, out, err)
 
 
 class St:
